@@ -426,8 +426,16 @@ func (p *Program) addRecursion() {
 		c := p.add(f, &Def{Kind: KConst, Name: p.name("Ck"), Type: target, Value: empty})
 		self.Default = &ConstVal{Kind: CRef, Ref: &Ref{c.File, c.Name}}
 		if simrt.Flip("rec.constant-shared", 0.5) {
-			// the empty constant is also used where nothing recursive is involved
-			p.add(f, &Def{Kind: KStruct, Name: p.name("S"), Fields: []*FieldDef{{ID: 1, Name: "other", Req: ReqOptional, Type: target, Default: &ConstVal{Kind: CRef, Ref: &Ref{c.File, c.Name}}}}})
+			// the empty constant is also used where nothing recursive is involved, under a type
+			// that does not mention the struct (an empty container casts to any element type)
+			plain := &TypeRef{Base: "list", Elem: &TypeRef{Base: "i32"}}
+			if target.Base == "map" {
+				plain = &TypeRef{Base: "map", Key: target.Key, Elem: &TypeRef{Base: "i32"}}
+			}
+			if ch("rec.constant-shared-type", 2) == 1 {
+				plain = target
+			}
+			p.add(f, &Def{Kind: KStruct, Name: p.name("S"), Fields: []*FieldDef{{ID: 1, Name: "other", Req: ReqOptional, Type: plain, Default: &ConstVal{Kind: CRef, Ref: &Ref{c.File, c.Name}}}}})
 		}
 	}
 	if p.recDefaults && n > 0 && (target.Base == "list" || target.Base == "map") && simrt.Flip("rec.container-default", 0.2) {
